@@ -353,12 +353,795 @@ fn gen_pbd(rng: &mut Rng, out: &mut dyn Write, n_files: usize) {
     }
 }
 
+// ------------------------------------------------------------------------------------------
+// skeletons: abstract Havok tag files (type declarations + objects in file order).
+// Only the *abstract* file is built here; the bytes come from `Spec/HavokTag.lean`.
+// Value tokens (prefix notation, `,`-separated): `_` absent, `b<u8>`, `i<int>`, `r<u32>`, `s<hex>`,
+// `o<index>`, `B<hex>`, `I<kind>/<int>/..`, `R/<u32>/..`, `S/<hex>/..`, `O/<index>/..`,
+// `V/<u32>.<u32>. ../..`, `X<n>x<k>` followed by `k` column values.
+// ------------------------------------------------------------------------------------------
+
+#[derive(Clone)]
+struct HMember {
+    name: Vec<u8>,
+    ty: u32,
+    tuple: i64,
+    cls: Vec<u8>,
+}
+
+#[derive(Clone)]
+struct HType {
+    name: Vec<u8>,
+    version: i64,
+    parent: Option<usize>, // logical index into the table
+    members: Vec<HMember>,
+    /// usable as the class of a STRUCT array: extra members are scalar kinds only
+    structy: bool,
+}
+
+#[derive(Clone)]
+enum HVal {
+    Absent,
+    Byte(u8),
+    Int(i64),
+    Real(u32),
+    Str(Vec<u8>),
+    Ref(usize),
+    Bytes(Vec<u8>),
+    Ints(i64, Vec<i64>),
+    Reals(Vec<u32>),
+    Strs(Vec<Vec<u8>>),
+    Refs(Vec<usize>),
+    Vecs(Vec<Vec<u32>>),
+    Structs(usize, Vec<HVal>),
+}
+
+fn sl<T: ToString>(head: &str, v: &[T]) -> String {
+    let mut s = head.to_string();
+    for x in v {
+        s.push('/');
+        s.push_str(&x.to_string());
+    }
+    s
+}
+
+fn val_tokens(v: &HVal, out: &mut Vec<String>) {
+    match v {
+        HVal::Absent => out.push("_".into()),
+        HVal::Byte(b) => out.push(format!("b{}", b)),
+        HVal::Int(i) => out.push(format!("i{}", i)),
+        HVal::Real(r) => out.push(format!("r{}", r)),
+        HVal::Str(s) => out.push(format!("s{}", hex(s))),
+        HVal::Ref(i) => out.push(format!("o{}", i)),
+        HVal::Bytes(b) => out.push(format!("B{}", hex(b))),
+        HVal::Ints(k, l) => out.push(sl(&format!("I{}", k), l)),
+        HVal::Reals(l) => out.push(sl("R", l)),
+        HVal::Strs(l) => out.push(sl("S", &l.iter().map(|x| hex(x)).collect::<Vec<_>>())),
+        HVal::Refs(l) => out.push(sl("O", l)),
+        HVal::Vecs(l) => out.push(sl(
+            "V",
+            &l.iter().map(|v| v.iter().map(|x| x.to_string()).collect::<Vec<_>>().join(".")).collect::<Vec<_>>(),
+        )),
+        HVal::Structs(n, cols) => {
+            out.push(format!("X{}x{}", n, cols.len()));
+            for c in cols {
+                val_tokens(c, out);
+            }
+        }
+    }
+}
+
+/// does the array value / column store at least one byte per element
+fn stores_data(v: &HVal) -> bool {
+    match v {
+        HVal::Absent => false,
+        HVal::Structs(_, cols) => cols.iter().any(stores_data),
+        _ => true,
+    }
+}
+
+fn int_edge(rng: &mut Rng) -> i64 {
+    let m: i64 = match rng.below(16) {
+        0 => 0,
+        1 => 1,
+        2 => 63,
+        3 => 64,
+        4 => 8191,
+        5 => 8192,
+        6 => (1 << 20) - 1,
+        7 => 1 << 20,
+        8 => (1 << 27) - 1,
+        9 => 1 << 27,
+        10 => (1i64 << 31) - 1,
+        11 => rng.below(1 << 13) as i64,
+        12 => rng.below(1 << 20) as i64,
+        13 => rng.below(1 << 27) as i64,
+        14 => rng.below(1 << 31) as i64,
+        _ => rng.below(64) as i64,
+    };
+    if rng.chance(1, 3) { -m } else { m }
+}
+
+fn utf8_name(rng: &mut Rng, pool: &mut Vec<Vec<u8>>) -> Vec<u8> {
+    if !pool.is_empty() && rng.chance(1, 4) {
+        return rng.pick(pool).clone();
+    }
+    let n = match rng.below(8) {
+        0 => 0,
+        1 => 1,
+        2 => rng.range(60, 70),
+        3 => rng.range(120, 140),
+        _ => rng.range(2, 12),
+    } as usize;
+    let mut s = String::new();
+    for _ in 0..n {
+        let c = match rng.below(12) {
+            0 => *rng.pick(&['é', 'ß', 'Ω', 'ж']),
+            1 => *rng.pick(&['骨', '\u{FFFD}', '€']),
+            2 => *rng.pick(&['😀', '\u{10FFFF}']),
+            3 => '_',
+            4 => (b'0' + rng.below(10) as u8) as char,
+            _ => (b'a' + rng.below(26) as u8) as char,
+        };
+        s.push(c);
+    }
+    let v = s.into_bytes();
+    pool.push(v.clone());
+    v
+}
+
+fn all_members(tb: &[HType], t: usize) -> Vec<HMember> {
+    let mut v = match tb[t].parent {
+        Some(p) => all_members(tb, p),
+        None => vec![],
+    };
+    v.extend(tb[t].members.iter().cloned());
+    v
+}
+
+fn mem(name: &str, ty: u32, cls: &str) -> HMember {
+    HMember { name: name.as_bytes().to_vec(), ty, tuple: 0, cls: cls.as_bytes().to_vec() }
+}
+
+fn std_types() -> Vec<HType> {
+    let t = |name: &str, version: i64, parent: Option<usize>, members: Vec<HMember>, structy: bool| HType {
+        name: name.as_bytes().to_vec(),
+        version,
+        parent,
+        members,
+        structy,
+    };
+    vec![
+        t("hkRootLevelContainer", 0, None, vec![mem("namedVariants", 0x19, "hkRootLevelContainerNamedVariant")], false),
+        t(
+            "hkRootLevelContainerNamedVariant",
+            0,
+            None,
+            vec![mem("name", 10, ""), mem("className", 10, ""), mem("variant", 8, "hkReferencedObject")],
+            true,
+        ),
+        t("hkBaseObject", 0, None, vec![], false),
+        t("hkReferencedObject", 0, Some(2), vec![mem("memSizeAndFlags", 2, ""), mem("referenceCount", 2, "")], false),
+        t(
+            "hkaAnimationContainer",
+            1,
+            Some(3),
+            vec![
+                mem("skeletons", 0x18, "hkaSkeleton"),
+                mem("animations", 0x18, "hkaAnimation"),
+                mem("bindings", 0x18, "hkaAnimationBinding"),
+                mem("attachments", 0x18, "hkaBoneAttachment"),
+                mem("skins", 0x18, "hkaMeshBinding"),
+            ],
+            false,
+        ),
+        t(
+            "hkaSkeleton",
+            5,
+            Some(3),
+            vec![
+                mem("name", 10, ""),
+                mem("parentIndices", 0x12, ""),
+                mem("bones", 0x19, "hkaBone"),
+                mem("referencePose", 0x16, ""),
+                mem("referenceFloats", 0x13, ""),
+                mem("floatSlots", 0x1a, ""),
+                mem("localFrames", 0x19, "hkaSkeletonLocalFrameOnBone"),
+                mem("partitions", 0x19, "hkaSkeletonPartition"),
+            ],
+            false,
+        ),
+        t("hkaBone", 0, None, vec![mem("name", 10, ""), mem("lockTranslation", 1, "")], true),
+        t(
+            "hkaSkeletonLocalFrameOnBone",
+            0,
+            None,
+            vec![mem("localFrame", 8, "hkLocalFrame"), mem("boneIndex", 2, "")],
+            true,
+        ),
+        t(
+            "hkaSkeletonPartition",
+            1,
+            None,
+            vec![mem("name", 10, ""), mem("startBoneIndex", 2, ""), mem("numBones", 2, "")],
+            true,
+        ),
+    ]
+}
+
+const T_ROOT: usize = 0;
+const T_NV: usize = 1;
+const T_CONT: usize = 4;
+const T_SKEL: usize = 5;
+const T_BONE: usize = 6;
+
+struct HGen<'a> {
+    rng: &'a mut Rng,
+    tb: Vec<HType>,
+    pool: Vec<Vec<u8>>,
+    nobjs: usize,
+    uniq: usize,
+    /// allow present members of kinds the reader has no code for (recorded finding)
+    unimpl: bool,
+    /// let extra INT members hold values outside i32 (recorded finding havok-int-beyond-i32)
+    wide: bool,
+}
+
+impl HGen<'_> {
+    fn fresh(&mut self, prefix: &str) -> Vec<u8> {
+        self.uniq += 1;
+        let mut s = format!("{}{}", prefix, self.uniq);
+        if self.rng.chance(1, 4) {
+            s.push_str(*self.rng.pick(&["é", "_x", "骨", "Zz"]));
+        }
+        s.into_bytes()
+    }
+
+    fn structy_types(&self, below: usize) -> Vec<usize> {
+        (0..self.tb.len().min(below)).filter(|&i| self.tb[i].structy).collect()
+    }
+
+    /// a random extra member; `scalar_only` for types used as STRUCT classes; `below` limits the
+    /// classes a nested STRUCT may refer to (no cycles)
+    fn extra_member(&mut self, scalar_only: bool, below: usize) -> HMember {
+        let name = self.fresh("x");
+        let cands = self.structy_types(below);
+        let mut m = HMember { name, ty: 2, tuple: 0, cls: vec![] };
+        let pick_cls = |g: &mut Self| -> Vec<u8> {
+            if cands.is_empty() { b"hkaBone".to_vec() } else { g.tb[*g.rng.pick(&cands)].name.clone() }
+        };
+        if scalar_only {
+            m.ty = match self.rng.below(12) {
+                0 | 1 => 1,
+                2 | 3 => 2,
+                4 => 3,
+                5 | 6 => 10,
+                7 => 8,
+                8 => self.rng.range(4, 7) as u32,
+                9 if !cands.is_empty() => 9,
+                // array / tuple members of a struct class: always absent in columns
+                10 => 0x10 | *self.rng.pick(&[1u32, 2, 3, 10]),
+                11 => 0x20 | *self.rng.pick(&[1u32, 2, 3, 4]),
+                _ => 2,
+            };
+        } else {
+            m.ty = match self.rng.below(20) {
+                0 => 1,
+                1 | 2 => 2,
+                3 => 3,
+                4 | 5 => 10,
+                6 => 8,
+                7 => 0x11,
+                8 => 0x12,
+                9 => 0x13,
+                10 => 0x1a,
+                11 => 0x18,
+                12 => 0x10 | self.rng.range(4, 7) as u32,
+                13 | 14 => 0x19,
+                15 => 0x20 | self.rng.range(1, 10) as u32,
+                16 => self.rng.range(4, 7) as u32,
+                17 => 0,
+                18 => 0x30 | *self.rng.pick(&[1u32, 2, 3, 10]),
+                _ => 2,
+            };
+        }
+        if m.ty & 0x20 != 0 {
+            m.tuple = self.rng.range(0, 300) as i64;
+        }
+        if m.ty & 0xf == 8 {
+            m.cls = if self.rng.chance(1, 2) { b"hkReferencedObject".to_vec() } else { self.fresh("cls") };
+        }
+        if m.ty & 0xf == 9 {
+            m.cls = pick_cls(self);
+        }
+        m
+    }
+
+    fn logical_type(&self, name: &[u8]) -> Option<usize> {
+        self.tb.iter().position(|t| t.name == name)
+    }
+
+    fn string(&mut self) -> Vec<u8> {
+        let HGen { rng, pool, .. } = self;
+        utf8_name(rng, pool)
+    }
+
+    fn int_value(&mut self) -> i64 {
+        if self.wide && self.rng.chance(1, 3) {
+            return *self.rng.pick(&[
+                1i64 << 31,
+                -(1i64 << 31),
+                (1i64 << 32) - 1,
+                (1i64 << 34) - 1,
+                1i64 << 34,
+                -(1i64 << 40),
+                i64::MAX,
+                -i64::MAX,
+            ]);
+        }
+        int_edge(self.rng)
+    }
+
+    fn small_len(&mut self) -> usize {
+        match self.rng.below(6) {
+            0 => 0,
+            1 => 1,
+            2 => self.rng.range(60, 70) as usize,
+            _ => self.rng.range(2, 9) as usize,
+        }
+    }
+
+    /// `n` elements of base type `base` (an array body / a STRUCT column)
+    fn body(&mut self, base: u32, cls: &[u8], n: usize, depth: usize) -> HVal {
+        match base {
+            1 => HVal::Bytes(self.rng.bytes(n)),
+            2 => HVal::Ints(int_edge(self.rng), (0..n).map(|_| self.int_value()).collect()),
+            3 => HVal::Reals((0..n).map(|_| f32_edge(self.rng)).collect()),
+            10 => HVal::Strs((0..n).map(|_| self.string()).collect()),
+            8 => HVal::Refs((0..n).map(|_| self.rng.range(0, self.nobjs as u64) as usize).collect()),
+            4..=7 => {
+                let k = 4 * (base as usize - 3);
+                HVal::Vecs((0..n).map(|_| (0..k).map(|_| f32_edge(self.rng)).collect()).collect())
+            }
+            9 => {
+                let t = self.logical_type(cls).expect("struct class");
+                let cols = self.columns(t, n, &[], depth + 1);
+                // an object-level STRUCT array whose elements store nothing can have more elements than
+                // bytes follow (recorded finding havok-array-length-guard): rare on purpose
+                if depth == 0 && n >= 1 && !cols.iter().any(stores_data) && !self.rng.chance(1, 30) {
+                    return HVal::Structs(0, self.columns(t, 0, &[], depth + 1));
+                }
+                HVal::Structs(n, cols)
+            }
+            _ => HVal::Absent,
+        }
+    }
+
+    /// columns of a STRUCT array of class `t`; `fixed` = columns given by the caller (by member name)
+    fn columns(&mut self, t: usize, n: usize, fixed: &[(&str, HVal)], depth: usize) -> Vec<HVal> {
+        let ms = all_members(&self.tb, t);
+        let mut seen = std::collections::HashSet::new();
+        ms.iter()
+            .map(|m| {
+                let first = seen.insert(m.name.clone());
+                if first {
+                    if let Some((_, v)) = fixed.iter().find(|(k, _)| k.as_bytes() == &m.name[..]) {
+                        return v.clone();
+                    }
+                }
+                let scalar = m.ty & 0x30 == 0 && (1..=10).contains(&(m.ty & 0xf));
+                if !scalar || self.rng.chance(2, 5) || (m.ty == 9 && depth >= 2) {
+                    HVal::Absent
+                } else {
+                    self.body(m.ty, &m.cls, n, depth)
+                }
+            })
+            .collect()
+    }
+
+    /// member values of an object of type `t`
+    fn fields(&mut self, t: usize, fixed: &[(&str, HVal)]) -> Vec<HVal> {
+        let ms = all_members(&self.tb, t);
+        let mut seen = std::collections::HashSet::new();
+        ms.iter()
+            .map(|m| {
+                let first = seen.insert(m.name.clone());
+                if first {
+                    if let Some((_, v)) = fixed.iter().find(|(k, _)| k.as_bytes() == &m.name[..]) {
+                        return v.clone();
+                    }
+                }
+                let ty = m.ty;
+                let base = ty & 0xf;
+                if ty & 0x10 != 0 && (1..=10).contains(&base) {
+                    if self.rng.chance(1, 2) || (base == 9 && self.logical_type(&m.cls).is_none()) {
+                        return HVal::Absent;
+                    }
+                    let n = self.small_len();
+                    return self.body(base, &m.cls, n, 0);
+                }
+                if ty & 0x30 == 0 && [1, 2, 3, 8, 10].contains(&ty) {
+                    if self.rng.chance(1, 2) {
+                        return HVal::Absent;
+                    }
+                    return match ty {
+                        1 => HVal::Byte(self.rng.next() as u8),
+                        2 => HVal::Int(self.int_value()),
+                        3 => HVal::Real(f32_edge(self.rng)),
+                        8 => HVal::Ref(self.rng.range(0, self.nobjs as u64) as usize),
+                        _ => HVal::Str(self.string()),
+                    };
+                }
+                // tuple / scalar vector / scalar struct / void: no reader code for a present value
+                if self.unimpl && self.rng.chance(1, 2) && (1..=10).contains(&base) && (base != 9 || self.logical_type(&m.cls).is_some()) {
+                    let n = if ty & 0x20 != 0 { m.tuple as usize % 5 } else { 1 };
+                    return self.body(base, &m.cls, n, 1);
+                }
+                HVal::Absent
+            })
+            .collect()
+    }
+}
+
+struct BoneG {
+    name: Vec<u8>,
+    parent: i64,
+    pose: Vec<u32>,
+    lock: u8,
+}
+
+fn gen_bones(rng: &mut Rng, pool: &mut Vec<Vec<u8>>, big: bool) -> Vec<BoneG> {
+    let n = match rng.below(10) {
+        0 => 1,
+        1 => 2,
+        2 => rng.range(60, 70),
+        3 if big => rng.range(200, 400),
+        _ => rng.range(1, 24),
+    } as usize;
+    let style = rng.below(4);
+    (0..n)
+        .map(|i| BoneG {
+            name: if rng.chance(1, 12) { utf8_name(rng, pool) } else {
+                let mut s = format!("{}_{}", rng.pick(&["j", "n", "iv", "ex"]), rng.below(200)).into_bytes();
+                if rng.chance(1, 6) { s.extend_from_slice("é骨".as_bytes()); }
+                pool.push(s.clone());
+                s
+            },
+            parent: match style {
+                0 => i as i64 - 1,                                       // a chain
+                1 => if i == 0 { -1 } else { rng.below(i as u64) as i64 }, // a tree
+                2 => if rng.chance(1, 5) { -1 } else { rng.below(n as u64) as i64 }, // forest, forward links
+                _ => int_edge(rng),                                      // arbitrary i32
+            },
+            pose: (0..12).map(|_| f32_edge(rng)).collect(),
+            lock: rng.below(3) as u8,
+        })
+        .collect()
+}
+
+fn header_fields(rng: &mut Rng) -> String {
+    let ver = *rng.pick(&[0x3132_3030u32, 0x3133_3030, 0x3133_3031]);
+    let hdr: Vec<u32> = (0..6).map(|_| rng.u32_edge()).collect();
+    let gap_len = match rng.below(6) {
+        0 => 0,
+        1 => 1,
+        2 => rng.range(100, 3000),
+        _ => rng.range(0, 64),
+    } as usize;
+    let reuse = match rng.below(4) {
+        0 => 0,
+        1 => 0xFFFF,
+        _ => rng.below(0x10000),
+    };
+    let width = match rng.below(8) {
+        0 => 5,
+        1 => rng.range(2, 4),
+        _ => 1,
+    };
+    format!("{} {} {} {} {}", ver, join(&hdr, ","), hex(&rng.bytes(gap_len)), reuse, width)
+}
+
+/// the standard file of theorem `c16_skeleton`
+fn gen_skel_std(rng: &mut Rng, out: &mut dyn Write, n: usize) {
+    for i in 0..n {
+        let mut pool = vec![];
+        let bones = gen_bones(rng, &mut pool, i % 50 == 7);
+        let b: Vec<String> = bones
+            .iter()
+            .map(|b| format!("{}:{}:{}:{}", hex(&b.name), b.parent, join(&b.pose, ","), b.lock))
+            .collect();
+        let name = utf8_name(rng, &mut pool);
+        let vname = if rng.chance(1, 2) { b"hkaAnimationContainer".to_vec() } else { utf8_name(rng, &mut pool) };
+        writeln!(out, "skelstd {} {} {} {} {}", header_fields(rng), hex(&name), hex(&vname), int_edge(rng), join(&b, ";")).unwrap();
+    }
+}
+
+/// arbitrary type tables around the members the skeleton extraction needs
+fn gen_skel_any(rng: &mut Rng, out: &mut dyn Write, n: usize) {
+    for i in 0..n {
+        let mut g = HGen { rng, tb: std_types(), pool: vec![], nobjs: 0, uniq: 0, unimpl: i % 40 == 39, wide: i % 40 == 19 };
+        if g.rng.chance(1, 2) {
+            g.tb.truncate(7); // the two classes skeleton files never instantiate are optional
+        }
+        let plain = i % 10 == 0; // the unmodified table
+        if !plain {
+            // extra struct classes (some with a chain of parents that have members)
+            for _ in 0..g.rng.below(3) {
+                let depth = g.rng.below(4) as usize;
+                let mut parent = None;
+                for d in 0..=depth {
+                    let below = g.tb.len();
+                    let k = g.rng.below(4) as usize;
+                    let members = (0..k).map(|_| g.extra_member(true, below)).collect();
+                    let name = g.fresh(if d == depth { "xs" } else { "xsp" });
+                    g.tb.push(HType { name, version: int_edge(g.rng), parent, members, structy: true });
+                    parent = Some(g.tb.len() - 1);
+                }
+            }
+            // new parents spliced in above existing types (deep inheritance, also for hkaBone)
+            for _ in 0..g.rng.below(4) {
+                let t = g.rng.below(g.tb.len() as u64) as usize;
+                let structy = g.tb[t].structy;
+                let k = g.rng.below(4) as usize;
+                // no nested STRUCT members here: the class graph must stay acyclic
+                let members = (0..k).map(|_| g.extra_member(structy, 0)).collect();
+                let name = g.fresh("xp");
+                let old = g.tb[t].parent;
+                g.tb.push(HType { name, version: int_edge(g.rng), parent: old, members, structy });
+                g.tb[t].parent = Some(g.tb.len() - 1);
+            }
+            // extra members anywhere
+            for _ in 0..g.rng.below(8) {
+                let t = g.rng.below(g.tb.len() as u64) as usize;
+                let structy = g.tb[t].structy;
+                let m = g.extra_member(structy, if structy { 0 } else { usize::MAX });
+                let at = g.rng.range(0, g.tb[t].members.len() as u64) as usize;
+                g.tb[t].members.insert(at, m);
+            }
+            // unrelated types
+            for _ in 0..g.rng.below(3) {
+                let parent = if g.rng.chance(1, 2) { None } else { Some(g.rng.below(g.tb.len() as u64) as usize) };
+                let structy = parent.map(|p| g.tb[p].structy).unwrap_or(false);
+                let k = g.rng.below(5) as usize;
+                let members = (0..k).map(|_| g.extra_member(structy, usize::MAX)).collect();
+                let name = g.fresh("xt");
+                g.tb.push(HType { name, version: int_edge(g.rng), parent, members, structy });
+            }
+            if g.unimpl {
+                // a scalar STRUCT / vector / tuple member in a type that gets instantiated
+                let t = *g.rng.pick(&[T_ROOT, T_CONT, T_SKEL]);
+                let ty = *g.rng.pick(&[9u32, 4, 6, 0x22, 0x2a, 0x23]);
+                let mut m = g.extra_member(false, usize::MAX);
+                m.ty = ty;
+                m.tuple = g.rng.range(1, 4) as i64;
+                m.cls = b"hkaBone".to_vec();
+                g.tb[t].members.push(m);
+            }
+            // member counts that are exact multiples of 8 (bit fields without a partial byte)
+            for &t in &[T_ROOT, T_NV, T_CONT, T_SKEL, T_BONE] {
+                if g.rng.chance(1, 3) {
+                    while all_members(&g.tb, t).len() % 8 != 0 {
+                        let structy = g.tb[t].structy;
+                        let m = g.extra_member(structy, if structy { 0 } else { usize::MAX });
+                        let at = g.rng.range(0, g.tb[t].members.len() as u64) as usize;
+                        g.tb[t].members.insert(at, m);
+                    }
+                }
+            }
+        }
+        // objects: 1 = root, the others in random order
+        let n_skel = if plain { 1 } else { g.rng.range(1, 3) as usize };
+        let n_extra = if plain { 0 } else { g.rng.below(4) as usize };
+        // boundary of the reader's length guard (`array_len > remaining input`): the last object of the file
+        // ends with a STRUCT array whose elements store nothing; 1..8 elements against the 2..8 bytes that follow
+        let edge = !plain && g.rng.chance(1, 12);
+        let mut edge_type = 0;
+        if edge {
+            let cands = g.structy_types(usize::MAX);
+            let cls = g.tb[*g.rng.pick(&cands)].name.clone();
+            let name = g.fresh("xg");
+            let mname = g.fresh("xga");
+            g.tb.push(HType {
+                name,
+                version: 0,
+                parent: None,
+                members: vec![HMember { name: mname, ty: 0x19, tuple: 0, cls }],
+                structy: false,
+            });
+            edge_type = g.tb.len() - 1;
+        }
+        let tb_len = g.tb.len();
+        let nobjs = 2 + n_skel + n_extra + edge as usize;
+        g.nobjs = nobjs;
+        let mut slots: Vec<usize> = (2..=nobjs - edge as usize).collect();
+        for k in (1..slots.len()).rev() {
+            let j = g.rng.below(k as u64 + 1) as usize;
+            slots.swap(k, j);
+        }
+        let cont_no = slots[0];
+        let skel_nos: Vec<usize> = slots[1..1 + n_skel].to_vec();
+        let mut objs: Vec<Option<(usize, Vec<HVal>)>> = vec![None; nobjs + 1];
+
+        // root
+        let before = if plain { 0 } else { g.rng.below(3) as usize };
+        let after = if plain { 0 } else { g.rng.below(2) as usize };
+        let nv = before + 1 + after;
+        let mut names = vec![];
+        let mut classes = vec![];
+        let mut variants = vec![];
+        for k in 0..nv {
+            if k == before {
+                names.push(if g.rng.chance(1, 2) { b"hkaAnimationContainer".to_vec() } else { g.string() });
+                classes.push(b"hkaAnimationContainer".to_vec());
+                variants.push(cont_no);
+            } else {
+                names.push(g.string());
+                classes.push(if k < before {
+                    g.rng.pick(&[&b"hkaAnimationContaine"[..], b"hkaAnimationContainerX", b"hkxScene", b"", b"HKAANIMATIONCONTAINER"]).to_vec()
+                } else {
+                    g.rng.pick(&[&b"hkaAnimationContainer"[..], b"hkpPhysicsData"]).to_vec()
+                });
+                variants.push(g.rng.range(0, nobjs as u64) as usize);
+            }
+        }
+        let cols = g.columns(
+            T_NV,
+            nv,
+            &[("name", HVal::Strs(names)), ("className", HVal::Strs(classes)), ("variant", HVal::Refs(variants))],
+            0,
+        );
+        objs[1] = Some((T_ROOT, g.fields(T_ROOT, &[("namedVariants", HVal::Structs(nv, cols))])));
+        // container
+        let bindings = if g.rng.chance(1, 2) { HVal::Absent } else { HVal::Refs(vec![]) };
+        objs[cont_no] = Some((T_CONT, g.fields(T_CONT, &[("skeletons", HVal::Refs(skel_nos.clone())), ("bindings", bindings)])));
+        // skeletons (every one must be well formed: the container builds them all)
+        let mut first_bones = 0;
+        for (k, &no) in skel_nos.iter().enumerate() {
+            let HGen { rng, pool, .. } = &mut g;
+            let bones = gen_bones(rng, pool, i % 50 == 7 && k == 0);
+            if k == 0 {
+                first_bones = bones.len();
+            }
+            let nb = bones.len();
+            let lock = if g.rng.chance(1, 3) { HVal::Absent } else { HVal::Bytes(bones.iter().map(|b| b.lock).collect()) };
+            let cols = g.columns(
+                T_BONE,
+                nb,
+                &[
+                    ("name", HVal::Strs(bones.iter().map(|b| b.name.clone()).collect())),
+                    ("lockTranslation", lock),
+                ],
+                0,
+            );
+            let kind = int_edge(g.rng);
+            let name = g.string();
+            let f = g.fields(
+                T_SKEL,
+                &[
+                    ("name", HVal::Str(name)),
+                    ("parentIndices", HVal::Ints(kind, bones.iter().map(|b| b.parent).collect())),
+                    ("bones", HVal::Structs(nb, cols)),
+                    ("referencePose", HVal::Vecs(bones.iter().map(|b| b.pose.clone()).collect())),
+                ],
+            );
+            objs[no] = Some((T_SKEL, f));
+        }
+        let _ = first_bones;
+        // unrelated objects
+        for &no in &slots[1 + n_skel..] {
+            let cands: Vec<usize> = (0..tb_len)
+                .filter(|&t| {
+                    (!g.tb[t].structy || g.rng.chance(1, 4))
+                        && (g.unimpl || all_members(&g.tb, t).iter().all(|m| m.ty != 9 && !(11..16).contains(&m.ty)))
+                })
+                .collect();
+            let t = *g.rng.pick(&cands);
+            let f = if t == T_ROOT || t == T_CONT || t == T_SKEL {
+                // a second container / skeleton object that nothing refers to: members absent
+                all_members(&g.tb, t).iter().map(|_| HVal::Absent).collect()
+            } else {
+                g.fields(t, &[])
+            };
+            objs[no] = Some((t, f));
+        }
+
+        if edge {
+            let cls = g.tb[edge_type].members[0].cls.clone();
+            let ct = g.logical_type(&cls).unwrap();
+            let ncols = all_members(&g.tb, ct).len();
+            let n = g.rng.range(1, 8) as usize;
+            objs[nobjs] = Some((edge_type, vec![HVal::Structs(n, vec![HVal::Absent; ncols])]));
+        }
+
+        // emission order of the type declarations
+        let lazy = !plain && g.rng.chance(1, 2);
+        let mut emitted: Vec<Option<usize>> = vec![None; tb_len]; // logical -> file index
+        let mut items: Vec<Result<usize, usize>> = vec![]; // Ok(logical type) | Err(object number)
+        fn need(tb: &[HType], t: usize, emitted: &mut Vec<Option<usize>>, items: &mut Vec<Result<usize, usize>>, count: &mut usize, depth: usize) {
+            if emitted[t].is_some() || depth > 50 {
+                return;
+            }
+            if let Some(p) = tb[t].parent {
+                need(tb, p, emitted, items, count, depth + 1);
+            }
+            *count += 1;
+            emitted[t] = Some(*count);
+            items.push(Ok(t));
+            for m in all_members(tb, t) {
+                if m.ty & 0xf == 9 {
+                    if let Some(c) = tb.iter().position(|x| x.name == m.cls) {
+                        need(tb, c, emitted, items, count, depth + 1);
+                    }
+                }
+            }
+        }
+        let mut count = 0;
+        if !lazy {
+            let mut order: Vec<usize> = (0..tb_len).collect();
+            if !plain {
+                for k in (1..order.len()).rev() {
+                    let j = g.rng.below(k as u64 + 1) as usize;
+                    order.swap(k, j);
+                }
+            }
+            for t in order {
+                need(&g.tb, t, &mut emitted, &mut items, &mut count, 0);
+            }
+        }
+        for no in 1..=nobjs {
+            let t = objs[no].as_ref().unwrap().0;
+            need(&g.tb, t, &mut emitted, &mut items, &mut count, 0);
+            items.push(Err(no));
+        }
+        if lazy && g.rng.chance(1, 2) {
+            for t in 0..tb_len {
+                need(&g.tb, t, &mut emitted, &mut items, &mut count, 0);
+            }
+        }
+
+        let its: Vec<String> = items
+            .iter()
+            .map(|it| match it {
+                Ok(t) => {
+                    let ty = &g.tb[*t];
+                    let ms: Vec<String> = ty
+                        .members
+                        .iter()
+                        .map(|m| format!("{}/{}/{}/{}", hex(&m.name), m.ty, m.tuple, hex(&m.cls)))
+                        .collect();
+                    format!(
+                        "T:{}:{}:{}:{}",
+                        hex(&ty.name),
+                        ty.version,
+                        ty.parent.map(|p| emitted[p].unwrap()).unwrap_or(0),
+                        join(&ms, ",")
+                    )
+                }
+                Err(no) => {
+                    let (t, f) = objs[*no].as_ref().unwrap();
+                    let mut toks = vec![];
+                    for v in f {
+                        val_tokens(v, &mut toks);
+                    }
+                    format!("O:{}:{}", emitted[*t].unwrap(), join(&toks, ","))
+                }
+            })
+            .collect();
+        let hf = header_fields(g.rng);
+        writeln!(out, "skel {} {}", hf, join(&its, ";")).unwrap();
+    }
+}
+
 pub fn generate(thorough: bool, seed: u64, out: &mut dyn Write) {
     let mut rng = Rng::new(seed, "C16");
     gen_cmp(&mut rng, out, if thorough { 1500 } else { 40 });
     gen_tera(&mut rng, out, thorough);
     gen_layer(&mut rng, out, if thorough { 20_000 } else { 900 });
     gen_pbd(&mut rng, out, if thorough { 3000 } else { 120 });
+    // an independent stream so that the older case families keep their cases
+    let mut rng = Rng::new(seed, "C16-skel");
+    gen_skel_std(&mut rng, out, if thorough { 4000 } else { 150 });
+    gen_skel_any(&mut rng, out, if thorough { 20_000 } else { 600 });
 }
 
 // ------------------------------------------------------------------------------------------
@@ -534,6 +1317,29 @@ pub fn run(case: &str, input: &str) -> String {
                             .collect();
                         format!("some {}", join(&v, "+"))
                     }
+                }
+            })
+        }
+        ("skel", 2) => {
+            let Some(bytes) = unhex(f[1]) else { return "bad-case".into() };
+            guarded(move || match physis::skeleton::Skeleton::from_existing(&bytes) {
+                None => "none".into(),
+                Some(sk) => {
+                    let v: Vec<String> = sk
+                        .bones
+                        .iter()
+                        .map(|b| {
+                            format!(
+                                "{}:{}:{}:{}:{}",
+                                hex(b.name.as_bytes()),
+                                b.parent_index,
+                                join(&b.position.iter().map(|x| x.to_bits()).collect::<Vec<_>>(), ","),
+                                join(&b.rotation.iter().map(|x| x.to_bits()).collect::<Vec<_>>(), ","),
+                                join(&b.scale.iter().map(|x| x.to_bits()).collect::<Vec<_>>(), ",")
+                            )
+                        })
+                        .collect();
+                    format!("some {}", join(&v, ";"))
                 }
             })
         }
